@@ -45,3 +45,18 @@ Definition sopt {X} (f : X -> sexp) (o : option X) : sexp :=
 Definition slist {X} (f : X -> sexp) (l : list X) : sexp := L (map f l).
 
 Definition bad : sexp := sym "BAD-CASE".
+
+(* structural equality, used by the in-Coq cross-check of extraction (lib/engine.py extraction_cross_check) *)
+Fixpoint sexp_eqb (a b : sexp) : bool :=
+  match a, b with
+  | A x, A y => bytes_eqb x y
+  | I x, I y => Z.eqb x y
+  | L x, L y =>
+      (fix go (l1 l2 : list sexp) : bool :=
+         match l1, l2 with
+         | [], [] => true
+         | s1 :: r1, s2 :: r2 => sexp_eqb s1 s2 && go r1 r2
+         | _, _ => false
+         end) x y
+  | _, _ => false
+  end.
